@@ -51,7 +51,7 @@ fn game_stream(run: &mut Run, rng: &mut Rng, n_hist: usize) {
                         // the engine's offers: never a card in play, right size, accepted
                         let mut offers = vec![];
                         for _ in 0..4 {
-                            let o = g.draw();
+                            let o = offered(g, rng);
                             let ob = bits(o);
                             run.evaluations += 1;
                             run.spec_checked += 1;
